@@ -1,11 +1,15 @@
 package main
 
 import (
+	"fmt"
 	"go/ast"
+	"go/constant"
 	"go/token"
 	"go/types"
 	"sort"
 	"strings"
+
+	"golang.org/x/tools/go/packages"
 )
 
 func init() { registry["C20"] = checkC20 }
@@ -270,6 +274,8 @@ func checkC20(c *Check) {
 		})
 		r3.Decide(okc == 2, "alias_trie.copyNode|predicates kept", fi.Decl.Pos(), "children map and recursive copies get (key_eq, key_less)", "copyNode does not hand (key_eq, key_less) in this order to the children map and the recursive copies")
 	}
+
+	checkTrieNodeIndices(c, c.Rule("R20.5", "the trie search gives its key generator a different index for every visited node", 1))
 
 	// ---------------- R20.4 ----------------
 	r4 := c.Rule("R20.4", "Trie.Search and Trie.Insert consider every child / reuse existing children", 2)
@@ -664,4 +670,128 @@ func checkInsertProvenance(c *Check) {
 			return true
 		})
 	})
+}
+
+// R20.5 (= R9.9): the trie search hands its key generator a different index for every node it visits. The generator of
+// alias() keeps one saved stream position per index (a parameter may consume several tokens), so two nodes that share an
+// index - e.g. two nodes of the same depth - overwrite each other's position and candidates of the second branch are read
+// from the wrong tokens and lost. Decided by evaluating Trie.Search (engine E2) on a small trie
+// (root → {a, b}, a → {c}, b → {d}) with a recording generator that accepts every child.
+func checkTrieNodeIndices(c *Check, r *Rule) {
+	L := c.L
+	fi := L.Fn("src/parser/alias_trie.(*Trie).Search")
+	if fi == nil {
+		r.Und("alias_trie.(*Trie).Search", token.NoPos, "function not found")
+		return
+	}
+	in := NewInterp(L)
+	in.MaxDepth = 12
+	intV := func(i int64) Val { return ConstV{V: constant.MakeInt64(i), T: types.Typ[types.Int]} }
+	mkMap := func(keys []Val, vals []Val) *Obj {
+		m := newObj("ordered_map.OrderedMap")
+		m.set("keys", SliceV{Elems: keys})
+		m.set("vals", SliceV{Elems: vals})
+		return m
+	}
+	mkNode := func(name string, key Val, keys []Val, kids []Val) *Obj {
+		n := newObj("trieNode")
+		n.set("name", StrV(name))
+		n.set("key", key)
+		n.set("hasValue", boolV(true))
+		n.set("value", StrV("value of "+name))
+		n.set("children", mkMap(keys, kids))
+		return n
+	}
+	nc := mkNode("c", intV(3), nil, nil)
+	nd := mkNode("d", intV(4), nil, nil)
+	na := mkNode("a", intV(1), []Val{intV(3)}, []Val{nc})
+	nb := mkNode("b", intV(2), []Val{intV(4)}, []Val{nd})
+	root := mkNode("root", intV(0), []Val{intV(1), intV(2)}, []Val{na, nb})
+	root.set("hasValue", boolV(false))
+	in.Models["ordered_map.(*OrderedMap).IterateKeys"] = func(in *Interp, pkg *packages.Package, call *ast.CallExpr, recv Val, args []Val) (Val, bool) {
+		m, ok := recv.(*Obj)
+		cl, ok2 := args[0].(Closure)
+		if !ok || !ok2 {
+			return nil, false
+		}
+		ks, _ := m.get("keys").(SliceV)
+		for _, k := range ks.Elems {
+			if t, known := truth(in.callClosure(cl, []Val{k})); known && !t {
+				break
+			}
+		}
+		return TupleV(nil), true
+	}
+	in.Models["ordered_map.(*OrderedMap).Get"] = func(in *Interp, pkg *packages.Package, call *ast.CallExpr, recv Val, args []Val) (Val, bool) {
+		m, ok := recv.(*Obj)
+		if !ok {
+			return nil, false
+		}
+		ks, _ := m.get("keys").(SliceV)
+		vs, _ := m.get("vals").(SliceV)
+		for i, k := range ks.Elems {
+			if t, known := eqVal(k, args[0]); known && t {
+				return TupleV{vs.Elems[i], boolV(true)}, true
+			}
+		}
+		return TupleV{NilV{}, boolV(false)}, true
+	}
+	trie := newObj("alias_trie.Trie")
+	trie.set("root", root)
+	trie.set("key_eq", NativeV{F: func(args []Val) Val {
+		if len(args) == 2 {
+			if t, known := eqVal(args[0], args[1]); known {
+				return boolV(t)
+			}
+		}
+		return Unk{"key_eq"}
+	}})
+	// the recording generator: which index is given while the children of which node are offered (identified by child key)
+	parentOf := map[int64]string{1: "root", 2: "root", 3: "a", 4: "b"}
+	indexOf := map[string]map[string]bool{}
+	gen := NativeV{F: func(args []Val) Val {
+		if len(args) == 2 {
+			if kc, ok := args[1].(ConstV); ok && kc.V != nil {
+				k, _ := constant.Int64Val(kc.V)
+				node := parentOf[k]
+				if indexOf[node] == nil {
+					indexOf[node] = map[string]bool{}
+				}
+				indexOf[node][fmt.Sprint(args[0])] = true
+			}
+			return TupleV{args[1], boolV(true)}
+		}
+		return TupleV{Unk{"key"}, Unk{"ok"}}
+	}}
+	var res Val
+	runs, _ := in.RunAll(4, func() {
+		for k := range indexOf {
+			delete(indexOf, k)
+		}
+		res = in.CallFunc(fi, trie, []Val{gen})
+	})
+	key := "alias_trie.(*Trie).Search|one index per visited node"
+	sl, isSlice := res.(SliceV)
+	if runs != 1 || !isSlice || len(indexOf) < 3 {
+		r.Und(key, fi.Decl.Pos(), fmt.Sprintf("the search could not be evaluated on the model trie (%d run(s), result %v, %d nodes offered children)", runs, res, len(indexOf)))
+		return
+	}
+	var bad []string
+	seen := map[string]string{}
+	for _, node := range []string{"root", "a", "b"} {
+		if len(indexOf[node]) != 1 {
+			bad = append(bad, fmt.Sprintf("the children of node %s are offered under %d different indices", node, len(indexOf[node])))
+			continue
+		}
+		for ix := range indexOf[node] {
+			if other, dup := seen[ix]; dup {
+				bad = append(bad, fmt.Sprintf("nodes %s and %s are visited under the same index", other, node))
+			}
+			seen[ix] = node
+		}
+	}
+	if len(sl.Elems) != 4 {
+		bad = append(bad, fmt.Sprintf("the search over the model trie yields %d values, expected the 4 values on the matched paths", len(sl.Elems)))
+	}
+	r.Decide(len(bad) == 0, key, fi.Decl.Pos(), "root, a and b are visited under three different indices; all four values are found", strings.Join(bad, "; ")+": the key generator of alias() keeps one saved position per index, so candidates of a sibling branch are read from the wrong tokens and dropped (a shorter alias or none is chosen)")
 }
